@@ -167,6 +167,17 @@ func (s *Store) Delete(ctx context.Context, target ocispec.Descriptor) error {
 	defer s.sync.Unlock()
 
 	deleteQueue := []ocispec.Descriptor{target}
+	// a node is queued at most once, even if it is both a referrer and a
+	// dangling successor of the nodes being deleted
+	queued := set.New[descriptor.Descriptor]()
+	queued.Add(descriptor.FromOCI(target))
+	enqueue := func(desc ocispec.Descriptor) {
+		key := descriptor.FromOCI(desc)
+		if !queued.Contains(key) {
+			queued.Add(key)
+			deleteQueue = append(deleteQueue, desc)
+		}
+	}
 	for len(deleteQueue) > 0 {
 		head := deleteQueue[0]
 		deleteQueue = deleteQueue[1:]
@@ -180,7 +191,7 @@ func (s *Store) Delete(ctx context.Context, target ocispec.Descriptor) error {
 			for _, referrer := range referrers {
 				// do not delete existing tagged manifests
 				if !s.isTagged(referrer) {
-					deleteQueue = append(deleteQueue, referrer)
+					enqueue(referrer)
 				}
 			}
 		}
@@ -203,7 +214,7 @@ func (s *Store) Delete(ctx context.Context, target ocispec.Descriptor) error {
 					return err
 				}
 				if exists {
-					deleteQueue = append(deleteQueue, d)
+					enqueue(d)
 				}
 			}
 		}
